@@ -69,10 +69,11 @@ func c07Build(p c07Case) *h.Scenario {
 		g.Opts.TaintEffect = v1.TaintEffectPreferNoSchedule
 	}
 	return &h.Scenario{
-		Name:     p.name(),
-		Groups:   []h.GroupSpec{g},
-		Slots:    1,
-		Quantum:  Q,
+		Name:             p.name(),
+		CovName:          "c07.grid",
+		Groups:           []h.GroupSpec{g},
+		Slots:            1,
+		Quantum:          Q,
 		FaultOps:         map[string]bool{sim.OpK8sGet: true, sim.OpK8sUpdate: true},
 		MaxEventsPerSlot: 1,
 		// the API persistently rejecting one tainted node (one deviation) next to the per-call failures
